@@ -38,7 +38,7 @@ class DeterministicProba(Contract):
 
     def clause_props(self, name, kind):
         if name.startswith("ensures.scheme"):
-            return ("C12", "C01", "C10")
+            return ("C12", "C01", "C10", "C03", "C09")      # the hash position itself: every property about where a unit lands
         if name.startswith("ensures."):
             return ("C03",)
         if name.startswith("raises.") or kind in ("safety", "pre-callee"):
